@@ -41,6 +41,7 @@ type gfListSpec struct {
 // gfWorld is a set of rule lists from which any number of independent
 // storages/engines can be built.
 type gfWorld struct {
+	memo      map[string]*gfEntry // entry templates by request
 	specs     []gfListSpec
 	dir       string
 	ruleTexts []string // network rule texts, for request generators
@@ -574,6 +575,23 @@ func gfIsHost(r rules.Rule) bool { _, ok := r.(*rules.HostRule); return ok }
 // netEntry observes, on a FRESH engine over spying lists, which indices
 // MatchAll(req) visits, and computes the match bits on the truth objects.
 func (w *gfWorld) netEntry(t *gfTruth, req *rules.Request, dnsEngine bool) *gfEntry {
+	key := fmt.Sprintf("net %v %+v", dnsEngine, *req)
+	if e, ok := w.memo[key]; ok {
+		c := *e
+
+		return &c
+	}
+	e := w.netEntry0(t, req, dnsEngine)
+	if w.memo == nil {
+		w.memo = map[string]*gfEntry{}
+	}
+	w.memo[key] = e
+	c := *e
+
+	return &c
+}
+
+func (w *gfWorld) netEntry0(t *gfTruth, req *rules.Request, dnsEngine bool) *gfEntry {
 	var log []gfRead
 	s := w.storage(&log, false)
 	defer func() { _ = s.Close() }()
@@ -614,6 +632,23 @@ func (w *gfWorld) netEntry(t *gfTruth, req *rules.Request, dnsEngine bool) *gfEn
 // hostEntry observes the candidates of the DNS engine's hosts table for a
 // hostname (network rules are made unreadable so that the table is always reached).
 func (w *gfWorld) hostEntry(t *gfTruth, hostname string) *gfEntry {
+	key := "host " + hostname
+	if e, ok := w.memo[key]; ok {
+		c := *e
+
+		return &c
+	}
+	e := w.hostEntry0(t, hostname)
+	if w.memo == nil {
+		w.memo = map[string]*gfEntry{}
+	}
+	w.memo[key] = e
+	c := *e
+
+	return &c
+}
+
+func (w *gfWorld) hostEntry0(t *gfTruth, hostname string) *gfEntry {
 	var log []gfRead
 	s := w.storage(&log, true)
 	defer func() { _ = s.Close() }()
